@@ -28,6 +28,8 @@ THEOREMS = [
     "C07_foreign_connection_dropped",
     "C07_loaded_macro_not_resavable",
     "C07_cached_io_view_drops_link",
+    "C07_autoload_stored_wins",
+    "C07_ctor_last_overrides_stored",
     "C07_last_save_wins",
     "C07_stale_file_shadows",
     "C07_load_in_place",
@@ -125,6 +127,9 @@ def snap(node):
         "bexec": _exec_repr(node.body_node_executor) if kind == "f" else "-",
         "det": node._detached_parent_path,
         "has_parent": node.parent is not None,
+        "auto": bool(node.automate_execution) if kind == "w" else True,
+        "maps": None if kind != "w" or (node._inputs_map is None and node._outputs_map is None) else "m:" + repr(
+            (sorted((node._inputs_map or {}).items(), key=repr), sorted((node._outputs_map or {}).items(), key=repr))),
         "lexical_path": node.lexical_path,
         "storage_path": str(node.as_path(root="R")),
         "parent_path": node.parent.lexical_path if node.parent is not None else None,
@@ -214,6 +219,10 @@ def _exec(I, e):
     return f"i{I('exec', e)}"
 
 
+def _maps(I, m):
+    return 0 if m is None else 1 + I("maps", m)
+
+
 def _path(I, p):
     if p is None:
         return None
@@ -237,6 +246,7 @@ def model_rows(I, s, rows, parent=None):
     lab = I("node", s["label"])
     rows.append(f"node {nid} {'-' if parent is None else parent} {lab} {I('cls', s['cls'])} {s['kind']}")
     rows.append(f"flags {nid} {int(s['running'])} {int(s['failed'])} {_exec(I, s['exec'])} {_exec(I, s['bexec'])}")
+    rows.append(f"wfopts {nid} {int(s.get('auto', True))} {_maps(I, s.get('maps'))}")
     if s["det"] is not None:
         rows.append(f"det {nid} " + " ".join(map(str, _path(I, s["det"]))))
     for k, v, st in s["ins"]:
@@ -290,7 +300,7 @@ def render(I, s, path=()):
     out = [
         f"N {ps} {q[-1]} {I('cls', s['cls'])} {s['kind']} {int(s['running'])} {int(s['failed'])} {ex} {bex} "
         f"det={det} start={L('node', s['start'])} prov={L('node', s['prov'])} recv={L('scoped', s['recv'])} "
-        f"cached={cached}",
+        f"cached={cached} auto={int(s.get('auto', True))} maps={_maps(I, s.get('maps'))}",
         f"I {ps} " + " ".join(f"{I('din', k)}={_val(I, v)}/{int(st)}" for k, v, st in s["ins"]),
         f"O {ps} " + " ".join(f"{I('dout', k)}={_val(I, v)}/{int(st)}" for k, v, st in s["outs"]),
         f"S {ps} in={L('sin', s['sin'])} out={L('sout', s['sout'])}",
@@ -400,6 +410,16 @@ def variant():
     fresh_b = nodes.F2(label="b")
     fresh_b.load(backend="pickle", filename=fn3)
     owndet = fresh_b.detached_parent_path is None
+    here = os.getcwd()
+    os.makedirs(os.path.join(here, "pv_probe_dir", "al"), exist_ok=True)
+    os.chdir(os.path.join(here, "pv_probe_dir", "al"))
+    try:
+        wa = Workflow("pva", autoload=None, automate_execution=False)
+        wa.a = nodes.F1()
+        wa.save(backend="pickle")
+        ctorlast = Workflow("pva").automate_execution is True  # the constructor's default beat the stored False
+    finally:
+        os.chdir(here)
     wh = Workflow("pvh", autoload=None)
     wh.a = nodes.TypedOut()
     wh.b = nodes.Typed()
@@ -412,7 +432,7 @@ def variant():
     except Exception:  # noqa: BLE001
         reval = True
     _VARIANT = (int(rev), int(fir), int(push), int(push_out), int(push_for), int(keep), int(skip), int(rebind),
-                int(noview), int(keepplace), int(reval), int(owndet))
+                int(noview), int(keepplace), int(reval), int(owndet), int(ctorlast))
     return _VARIANT
 
 
@@ -426,7 +446,8 @@ def _build_root(case):
 
     r = case["root"]
     if r["kind"] == "wf":
-        wf = Workflow(r["label"], autoload=None, automate_execution=r["spec"].get("auto", True))
+        wf = Workflow(r["label"], autoload=None, automate_execution=r["spec"].get("auto", True),
+                      inputs_map=r["spec"].get("imap"), outputs_map=r["spec"].get("omap"))
         spec = r["spec"]
         if case.get("foreign"):
             # a node OUTSIDE the workflow feeds one of its children
@@ -456,17 +477,31 @@ def _spec_at(case, path):
     return s
 
 
-def _fresh_like(case, path):
-    """a new, never run instance of the same class and label (what `load()` is called on)"""
+def _fresh_like(case, path, autoload=False):
+    """a new, never run instance of the same class and label (what `load()` is called on); with `autoload`: the
+    constructor itself finds the save file — `Workflow(label)` the usual way, with whatever constructor arguments
+    `case["ctor"]` says (none = all defaults)"""
     from pyiron_workflow import Workflow
 
     from . import nodes_c07 as N
 
     s = _spec_at(case, path)
     if s["kind"] == "wf":
+        if autoload:
+            ctor = dict(case.get("ctor") or {})
+            kw = {}
+            if "auto" in ctor:
+                kw["automate_execution"] = ctor["auto"]
+            if "imap" in ctor:
+                kw["inputs_map"] = ctor["imap"]
+            if ctor.get("explicit"):
+                kw["autoload"] = "pickle"
+            return Workflow(s["label"], **kw)  # autoload="pickle" is the default of a workflow
         return Workflow(s["label"], autoload=None, automate_execution=s["spec"].get("auto", True))
     s = dict(s)
     s["const"] = {}
+    if autoload:
+        s["_ctor"] = {"autoload": "pickle"}
     return N.make_child(s)
 
 
@@ -547,6 +582,9 @@ def _roundtrip(obj, backend, case, path):
 
     if backend == "newproc":
         return _roundtrip_newproc(obj, case, path)
+    if backend == "autoload":
+        obj.save(backend="pickle")  # the canonical place: <cwd>/<lexical path>/picklestorage.*
+        return _fresh_like(case, path, autoload=True)
     if backend in ("pickle", "cloudpickle"):
         return N.loads(N.dumps(obj, backend), backend)
     _COUNTER[0] += 1
@@ -917,9 +955,14 @@ def run_impl(case):
         # the driver starts from the parent's path: describe the child as a root whose detached path is the parent's
         pass
     op = ("fileloadown" if res["variant"][11] else "fileload") if backend in ("file", "newproc") else "pickle"
+    ctor = dict(case.get("ctor") or {})
+    ctor_maps = "-" if "imap" not in ctor else str(_maps(I, "m:" + repr((sorted(ctor["imap"].items(), key=repr), []))))
+    auto_row = "autoload %d%d%d%d%d%d%d %d %d %d %s" % (*vr_pre(res)[:6], vr_pre(res)[10], vr_pre(res)[11],
+                                                        vr_pre(res)[12], int(ctor.get("auto", True)), ctor_maps)
     n_ops = len(res["rounds"]) + (1 if res["error"] else 0)
     for _ in range(n_ops):
-        rows.append(f"{op} {v}")
+        rows.append(auto_row if backend == "autoload" and before["kind"] == "w" else
+                    (f"{op} {v}" if backend != "autoload" else f"{'fileloadown' if vr[11] else 'fileload'} {v}"))
     for s in res["rounds"]:
         obs.extend(render(I, s))
     if res["error"]:
@@ -981,6 +1024,10 @@ def _run_inplace(case, root, path, res, stats):
     res["model"] = rows
     res["obs"] = obs
     return res
+
+
+def vr_pre(res):
+    return res["variant"]
 
 
 def _as_detached(I, before, res):
@@ -1084,6 +1131,9 @@ def _compare(before, after, child_alone):
             return _fail("output-values", f"{p}: {b['outs']} -> {a['outs']}")
         if (b["running"], b["failed"]) != (a["running"], a["failed"]):
             return _fail("flags", f"{p}: running/failed {b['running']},{b['failed']} -> {a['running']},{a['failed']}")
+        if (b.get("auto", True), b.get("maps")) != (a.get("auto", True), a.get("maps")):
+            return _fail("workflow-options", f"{p}: automate_execution/maps {b.get('auto')},{b.get('maps')} -> "
+                                             f"{a.get('auto')},{a.get('maps')}")
         if b["recv"] != a["recv"]:
             return _fail("trigger-state", f"{p}: what the all-of trigger has heard: {b['recv']} -> {a['recv']}")
         if b.get("parent_ok", True) and not a.get("parent_ok", True):
@@ -1432,6 +1482,11 @@ def _mk_case(rng, tier, mode):
             state = "run"
     else:
         root = {"kind": "wf", "label": "w", "spec": _gen_graph(rng, depth, opts)}
+        if rng.random() < 0.1:
+            f0 = next((c for c in root["spec"]["children"] if c["kind"] == "F" and not any(
+                d[0] == c["label"] and d[1] == "c" for d in root["spec"]["data"])), None)
+            if f0 is not None:
+                root["spec"]["imap"] = {f"{f0['label']}__c": "alias_c"}
         if mode == "atmost1":
             root["spec"].pop("signals", None)
             root["spec"].pop("starting", None)
@@ -1552,6 +1607,20 @@ def _mk_case(rng, tier, mode):
                                "dst": tgt["label"], "dst_in": "c"}
             case["target"] = []
             case.pop("rerun", None)  # the copy has lost the outside feed: its re-run is another computation
+    if (case["backend"] == "file" and not case["target"] and case["state"] not in ("midrun", "ctlmid") and not case.get("resave")
+            and not case.get("inplace") and mode != "foreign" and rng.random() < 0.3):
+        # the usual way of picking a saved graph up again: construct it where the file is (autoload at construction)
+        case["backend"] = "autoload"
+        k = rng.random()
+        if root["kind"] == "wf":
+            case["ctor"] = ({} if k < 0.5 else {"explicit": True} if k < 0.65 else {"auto": rng.random() < 0.5}
+                            if k < 0.9 else {"imap": {"zz__a": "alias"}})
+            tgt = next((c for c in root["spec"]["children"] if c["kind"] == "F" and not any(
+                d[0] == c["label"] and d[1] == "b" for d in root["spec"]["data"])), None)
+            if tgt is not None and not case.get("edits"):
+                # run again on FRESH input (not answered from any cache)
+                case["rerun"] = [["set", [tgt["label"]], "b", "fresh"], "run"]
+                case["rerun_eq_cache"] = True
     return case
 
 
@@ -1815,6 +1884,17 @@ def corpus():
                "mode": "corpus"}
         yield {"root": gx, "state": "run", "ctl": True, "schedule": [0, 0, 1, 0, 0, 0], "backend": be, "rounds": 2,
                "target": ["outer", "inner", "a"], "fail": [], "has_executor": True, "mode": "corpus"}
+    # AUTOLOAD AT CONSTRUCTION of hand-wired workflows (automation off): saved, picked up with `Workflow(label)`, run again
+    # on fresh input — a conditional flow through `If`, and a custom firing order
+    yield {"root": {"kind": "wf", "label": "w", "spec": _cyclic_spec(None, 3)}, "state": "run", "backend": "autoload",
+           "ctor": {}, "rounds": 2, "target": [], "fail": [], "rerun": [["set", ["post"], "b", "fresh"], "run"],
+           "rerun_eq_cache": True, "mode": "corpus"}
+    yield {"root": m2, "state": "run", "backend": "autoload", "ctor": {}, "rounds": 1, "target": [], "fail": [],
+           "rerun": [["set", ["a"], "b", "fresh"], "run"], "rerun_eq_cache": True, "mode": "corpus"}
+    yield {"root": m2, "state": "fresh", "backend": "autoload", "ctor": {"auto": True, "imap": {"zz__a": "al"}},
+           "rounds": 1, "target": [], "fail": [], "rerun": ["run"], "mode": "corpus"}
+    yield {"root": m1["spec"]["children"][0] | {"label": "m", "const": {"x": 1}}, "state": "run", "backend": "autoload",
+           "rounds": 2, "target": [], "fail": [], "rerun": ["run"], "rerun_eq_cache": True, "mode": "corpus"}
     # a child on its own, nested, all three back ends
     for be in ("pickle", "cloudpickle", "file"):
         yield {"root": m1, "state": "run", "backend": be, "rounds": 2, "target": ["m", "c"], "fail": [], "mode": "corpus"}
